@@ -55,6 +55,10 @@ def cases(ctx):
             t = []           # a table that yields nothing at all, not even a header: nothing comes out (and the tee target still equals
             #                  what to* writes for it)
         c = {'fn': fn, 'table': t, 'target': rng.choice(['memory', 'file'])}
+        if fn in ('teecsv', 'teetsv', 'teetext', 'teehtml') and rng.random() < 0.3:
+            # errors=: what the codec does with a character the encoding lacks; with a policy other than 'strict' the ascii / latin-1
+            # encodings are kept for tables they cannot represent, and the tee target must still equal what to* writes
+            c['errors'] = rng.choice(['strict', 'replace', 'ignore', 'xmlcharrefreplace', 'backslashreplace'])
         if fn.startswith('tee'):
             # an earlier pass over the same tee view (abandoned after the header or a few rows, or complete) before the judged one:
             # the target holds what the *last complete* pass wrote
@@ -272,13 +276,22 @@ def judge(case, ctx):
 
     # ---- tees: rows + bytes vs to*
     enc = case.get('encoding')
-    if enc in ('latin-1',) and not _latin(table):
+    errors = case.get('errors')
+    if errors not in (None, 'strict') and fn != 'teepickle':
+        if enc in (None, 'utf-8', 'utf-8-sig') and case.get('narrow', True):
+            enc = 'ascii' if (len(case['table']) % 2) else 'latin-1'
+        if not all(_enc_ok(c, enc) for r in table for c in r):
+            ctx.seen('errors=%s-with-a-character-the-encoding-lacks' % errors)
+    elif enc in ('latin-1',) and not _latin(table):
         enc = 'utf-8'
     if enc not in (None, 'utf-8'):
         ctx.seen('non-utf8-encoding')
     kw = {}
     if enc is not None:
         kw['encoding'] = enc
+    if errors is not None and fn != 'teepickle':
+        kw['errors'] = errors
+        ctx.seen('errors=' + errors)
     if fn in ('teecsv', 'teetsv'):
         if not case['write_header']:
             kw['write_header'] = False
